@@ -66,6 +66,24 @@ theorem C19_one_notification_per_subscriber (s : St) (topic : String) (k : ModId
   obtain ⟨c, md', h1, h2, h3, _, h5, h6, h7, h8⟩ := h.2.2 hk he sub hf q hp hroom
   exact ⟨c, md', h1, h2, h3, h8, h5, h6, h7⟩
 
+/-- the same for the notifications that name a module (it entered or left RUNNING): `tell_system_pubsub_msg` first counts the
+message on the named module (`sent`), then walks the table; stated about the state after that count -/
+theorem C19_one_transition_notification_per_subscriber (s : St) (m : ModId) (topic : String) (k : ModId) (md : Mod)
+    (hm : (s.updMod m fun x => { x with sent := x.sent + 1 }).mods[k]? = some md) :
+    let s1 := s.updMod m fun x => { x with sent := x.sent + 1 }
+    (k ∈ s1.tableOrder → ((md.state ≠ .running ∧ md.state ≠ .paused) ∨ fetchSub s1 md topic = none) →
+      (tellSystem s none (some m) topic).mods[k]? = some md) ∧
+    (k ∈ s1.tableOrder → (md.state = .running ∨ md.state = .paused) → ∀ sub, fetchSub s1 md topic = some sub → ∀ q, md.pipe = some q →
+      q.length + md.pipeSkip < pipeCap →
+      ∃ copy md', (tellSystem s none (some m) topic).mods[k]? = some md' ∧ md'.pipe = some (q ++ [copy]) ∧ copy.payload = 0 ∧
+        copy.sys = true ∧ copy.sender = some m ∧ copy.topic = some topic ∧ copy.sub = some sub ∧ md'.state = md.state) := by
+  intro s1
+  have h := Lm.Props.C02.C02_publish_exactly_the_subscribed s1
+    { sender := some m, topic := some topic, payload := 0, sys := true, holder := none, sub := none, pill := false } topic rfl k md hm
+  refine ⟨h.2.1, fun hk he sub hf q hp hroom => ?_⟩
+  obtain ⟨c, md', h1, h2, h3, h4, h5, h6, h7, h8⟩ := h.2.2 hk he sub hf q hp hroom
+  exact ⟨c, md', h1, h2, h3, h8, h4, h5, h6, h7⟩
+
 /-- tie A: the guard prefixes of the entry points this property is about, re-extracted from the source on every run,
 are the ones the model transcribes (`Lm.Inst.CoreTie`) -/
 theorem C19_guards_in_source :
